@@ -58,6 +58,12 @@ uint64_t getters_thdm(const gm2calc::THDM&);
 /// SM layer and running masses: pure functions of the arguments
 double sm_ops(double lambda, double A, double rho, double eta, double mz, double alpha_s);
 
+/// the caller changes a model it owns (one parameter, then recalculation); returns the getters hash
+uint64_t mutate_mssm(gm2calc::MSSMNoFV_onshell&, int what, double u);
+uint64_t mutate_thdm(gm2calc::THDM&, int what, double u);
+/// loop functions and special functions called directly
+double ff_ops(double x, double y, double z);
+
 size_t sizeof_mssm();
 size_t sizeof_thdm();
 
